@@ -70,6 +70,8 @@ var FedCorpus = []corpusCase{
 	{"D26-inline-priority", withPrio(fixedIn(`{ me { ... on User { lastName } } }`), "C"), "planner ping-pong"},
 	{"basic-nested", fixedIn(`{ allUsers { firstName photos { url likes owner { firstName } } } }`), ""},
 	{"basic-node", fixedIn(`{ node(id: "u1") { ... on User { firstName lastName } } }`), ""},
+	{"D66-node-of-another-type-narrowed-by-a-spread", fixedIn(`{ node(id: "p1") { ... on User { ...F2 } } } fragment F2 on User { firstName }`), "the gateway's node field answers any id; a follow-up narrowed to a concrete type by a fragment around a spread may rightfully find nothing"},
+	{"D66-node-of-another-type-narrowed-2", fixedIn(`{ a: node(id: "u1") { ...F1 } b: node(id: "p2") { ...F1 } } fragment F1 on Node { ... on User { ...F2 } } fragment F2 on User { lastName nick }`), ""},
 	{"same-node-under-two-keys", fixedIn(`{ a: node(id: "u1") { ... on User { lastName } } b: node(id: "u1") { id ... on User { firstName } } }`), "two places of the response describe one object: each has its own keys (what is stitched into one, or scrubbed from it, must not show in the other)"},
 	{"same-node-under-two-keys-2", fixedIn(`{ a: node(id: "u2") { ... on User { nick photos { likes } } } b: node(id: "u2") { ... on User { lastName } } c: node(id: "u1") { id } }`), ""},
 	{"same-user-under-two-keys", fixedIn(`{ a: user(id: "u1") { lastName } b: user(id: "u1") { id firstName nick } }`), ""},
